@@ -60,6 +60,12 @@ RECURSIVE JoinSet(_)
 JoinSet(T) == IF T = {} THEN ""
               ELSE LET x == CHOOSE y \in T : TRUE
                    IN IF T \ {x} = {} THEN x ELSE x \o ";" \o JoinSet(T \ {x})
+\* Strict let: evaluate x ONCE and apply F to the value.  (TLC passes operator arguments
+\* and LET definitions lazily and, depending on the evaluation context, re-evaluates them
+\* at every reference; a bound variable always holds a value.)
+Strict(x, F(_)) == CHOOSE r \in {F(v) : v \in {x}} : TRUE
+\* names of the failing entries of a sequence of checks <<name, holds>>, with a prefix
+FailsOf(cs, pre) == Strict(cs, LAMBDA v : {pre \o v[k][1] : k \in {kk \in 1..Len(v) : ~v[kk][2]}})
 Card(S) == Cardinality(S)
 Choose2(n) == (n * (n - 1)) \div 2
 
